@@ -19,7 +19,12 @@ Vocabulary (defined in Model/Proofs):
   interference; `ownE sem env plan 0 p s` – our own applied calls, each with the store at the moment it was
   applied; `KeptFrom cas a b` – every secret that is `Protected` in `a` (complete; or not a CA secret and holding
   any of tls.crt / tls.key / ca.crt) is unchanged in `b`; `PeerKeeps cas env` – the rely: the peer never rewrites
-  a protected secret. Every theorem above this section is about `run` = the case `Env.none` (`no_peer_is_plain_run`).
+  a protected secret. Every theorem above this section is about `run` = the case `Env.none` (`no_peer_is_plain_run`);
+* other writers on every object and error classes (very last section): `semK e` – refused calls are answered with an
+  error of class `e` (`sem` = `semK .other`), `semAny er` – with any reply whatsoever; `Untouched a b` – existing
+  defaults, custom resources and undeclared fields of `a` are the same in `b`; `PeerUntouches env` – the rely for
+  them; `x.2.pkgTarget` – the (kind, object name, reference) a package write goes to; `x.2.bundles` – the caBundles
+  a CRD / webhook-configuration write carries; `bundleRefs steps` – the webhook TLS secrets they are read from.
 -/
 namespace Xp.C20
 open Xp
